@@ -112,6 +112,11 @@ def run_case(spec):
     if kind == "simulate":
         m = Model(cfg)
         runs = [run_simulate(m)]
+    elif kind == "sort":
+        from . import funs
+        c2 = dict(cfg)
+        c2["id"] = spec["id"]
+        return {"cfg": c2, "runs": [funs.run_sort(spec)], "spec": spec}
     else:
         raise ValueError("unknown case kind %r" % kind)
     return {"cfg": cfg, "runs": runs, "spec": spec}
